@@ -1283,7 +1283,7 @@ class Database:
                 else:
                     # Nothing in the database for this param, so use the default value
                     data = np.repeat(
-                        parameters.byNameAndType(paramName, compType).default,
+                        compType.pDefs[paramName].default,
                         len(comps),
                     )
 
@@ -1441,7 +1441,7 @@ class Database:
                     else:
                         # Nothing in the database, so use the default value
                         data = np.repeat(
-                            parameters.byNameAndType(paramName, compType).default,
+                            compType.pDefs[paramName].default,
                             len(reorderedComps),
                         )
 
